@@ -46,10 +46,10 @@ def c04_attribution(f, sig, mech, out, detail, rel=0.0):
         return None
     if mech not in ('value', 'origin'):
         return None
-    if not any(g[0] == 'const' for g in lang.walk(f)) and not lang.has_stateful(f):
+    if mech == 'value' and not any(g[0] == 'const' for g in lang.walk(f)) and not lang.has_stateful(f):
         # the defect is about constants (emitted from time 0) and temporal operators (anchored at their operand's
-        # own first stamp instead of the start of the common domain): a formula with neither is outside its
-        # precondition
+        # own first stamp instead of the start of the common domain): a wrong *value* on a formula with neither is
+        # outside its precondition (the early start of the result - mechanism 'origin' - shows on any formula)
         return None
     nsig, start = normalise_signals(sig)
     names = sorted(nsig)
